@@ -84,6 +84,9 @@ class DstWorld(World):
             elif e[0] == "reject":
                 if not st.D.user.vfs.reject_next:
                     evs.append(e)
+            elif e[0] == "reject_create":
+                if not st.D.user.vfs.reject_create:
+                    evs.append(e)
             elif e[0] == "newtx":
                 if st.seq < self.cfg.get("max_tx", 1):
                     evs.append(e)
@@ -168,6 +171,10 @@ class DstWorld(World):
             ent.user.vfs.reject_next = True
             obs, msgs = {}, []
             out["armed"] = True
+        elif k == "reject_create":
+            ent.user.vfs.reject_create = True
+            obs, msgs = {}, []
+            out["armed"] = "create"
         elif k == "newtx":
             st.seq += 1
             obs, msgs = {}, []
